@@ -96,6 +96,11 @@ fn init(t: &mut FuzzyHashCompareTarget, c: &Content, form: usize) -> Result<bool
 }
 
 fn judge_target(m: &TargetModel, s: &TS) -> Result<(), String> {
+    // a panic escaping from the library through any call below is a violation of this case, not a crash
+    guard_case(|| judge_target_unguarded(m, s))
+}
+
+fn judge_target_unguarded(m: &TargetModel, s: &TS) -> Result<(), String> {
     let i = match s.last {
         None => return Ok(()),
         Some(i) => i,
@@ -168,6 +173,7 @@ impl Model for TargetModel {
 fn run_target_path(hs: &[Content], path: &[(usize, usize)]) -> Result<(), String> {
     let m = TargetModel::new(hs.to_vec());
     let mut t = FuzzyHashCompareTarget::new();
+    judge_target(&m, &TS::new(t.clone(), None)).map_err(|e| format!("new target: {}", e))?;
     for (k, &(i, f)) in path.iter().enumerate() {
         if init(&mut t, &hs[i], f).map_err(|p| format!("init_from panicked: {}", p))? {
             judge_target(&m, &TS::new(t.clone(), Some(i))).map_err(|e| format!("after step {} (init_from #{} form {}): {}", k + 1, i, f, e))?;
@@ -227,6 +233,11 @@ fn build(strs: &[Vec<u8>], ops: &[POp]) -> Result<BlockHashPositionArray, String
     Ok(pa)
 }
 fn judge_pa(strs: &[Vec<u8>], s: &PS) -> Result<(), String> {
+    // a panic escaping from the library through any call below is a violation of this case, not a crash
+    guard_case(|| judge_pa_unguarded(strs, s))
+}
+
+fn judge_pa_unguarded(strs: &[Vec<u8>], s: &PS) -> Result<(), String> {
     let pa = build(strs, &s.ops)?;
     if s.last == Some(UNKNOWN) {
         // a refused initialisation: the array must still pass its validity check (and the queries must not panic)
@@ -330,6 +341,11 @@ fn pa_strings(thorough: bool) -> Vec<Vec<u8>> {
 
 /// `has_sequences(x, len)`: does the bit vector contain `len` consecutive ones?
 fn has_sequences_case(x: u64, len: u32) -> Result<(), String> {
+    // a panic escaping from the library through any call below is a violation of this case, not a crash
+    guard_case(|| has_sequences_case_unguarded(x, len))
+}
+
+fn has_sequences_case_unguarded(x: u64, len: u32) -> Result<(), String> {
     use ssdeep::internal_comparison::block_hash_position_array_element::{has_sequences, has_sequences_const};
     let exp = if len == 0 {
         true
@@ -372,6 +388,8 @@ pub fn replay(c: &Value) -> Result<(), String> {
             let strs: Vec<Vec<u8>> = c["strings"].as_array().ok_or("strings")?.iter().filter_map(|s| s.as_str().map(unhex)).collect();
             let mut ops = vec![];
             let mut last = None;
+            // the initial state is judged as well (a violation may already show on a new array)
+            judge_pa(&strs, &PS { ops: vec![], key: Arc::new(String::new()), last: None })?;
             for o in c["ops"].as_array().ok_or("ops")? {
                 match o.as_i64() {
                     Some(-1) => {
